@@ -131,10 +131,17 @@ where
 
     fn create(&self, data: &Self::Item) -> Result<bool> {
         debug!("mem::{}.create({:?})", self.name, data);
-        self.db
-            .write()
-            .unwrap()
-            .insert(data.id().to_string(), data.doc()?);
+        let mut db = self.db.write().unwrap();
+        // like an INSERT: a record that exists is not replaced (a second acknowledging channel
+        // recording the same message must not wipe the status the first client has set)
+        if db.contains_key(data.id()) {
+            return Err(ActError::Store(format!(
+                "mem::{}.create: the id '{}' exists already",
+                self.name,
+                data.id()
+            )));
+        }
+        db.insert(data.id().to_string(), data.doc()?);
         Ok(true)
     }
 
